@@ -352,7 +352,7 @@ def gen_start(rng):
     declared = []
     for _ in range(rng.choice([0, 1, 1, 2, 2, 3, 4])):
         p = rng.choice(PFX + ['', ''])
-        u = rng.choice(URIS)
+        u = rng.choice(URIS) if rng.random() > 0.01 else '*'
         ccc = ''.join(rng.choice('0001') for _ in range(3))
         src.append(('ns', p, u, ccc))
         declared.append(p)
